@@ -85,11 +85,26 @@ def run(case):
             seen["unc"] = np.array(uncertainty.array, dtype=float)
             seen["mask"] = None if mask is None else np.array(mask)
             return propagate_rebin_uncertainties(uncertainty, data, mask, **kw)
+        # the user's function as a plain function, a functools.partial, a bound method or a callable object, by turns
+        import functools
+        import zlib
+        plain = prop
+
+        class _Holder:
+            def method(self, uncertainty, data, mask, **kw):
+                return plain(uncertainty, data, mask, **kw)
+
+            def __call__(self, uncertainty, data, mask, **kw):
+                return plain(uncertainty, data, mask, **kw)
+        prop = [plain, functools.partial(plain), _Holder().method, _Holder()][zlib.crc32(("spy" + case["key"]).encode()) % 4]
+    import zlib
+    # the switch as a Python bool, a numpy bool or an int
+    ignores_arg = [case["ignores"], np.bool_(case["ignores"]), int(case["ignores"])][zlib.crc32(("ig" + case["key"]).encode()) % 3]
     why = []
     with warnings.catch_warnings(record=True) as wlist:
         warnings.simplefilter("always")
         try:
-            r = cube.rebin(bins, operation=op, operation_ignores_mask=case["ignores"], propagate_uncertainties=prop)
+            r = cube.rebin(bins, operation=op, operation_ignores_mask=ignores_arg, propagate_uncertainties=prop)
             exc = None
         except Exception as e:  # noqa
             r, exc = None, exc_name(e)
@@ -155,6 +170,8 @@ def run(case):
                 elif not ok:
                     why.append(f"output {j}: propagated variance {g!r}, textbook combination of its block gives {e!r}")
                     break
+    if case["spy"] and "data" not in seen and r is not cube and r.uncertainty is not None and not why:
+        why.append("uncertainties were propagated but the user-supplied propagation function was never called")
     if case["spy"] and "data" in seen and not why:
         new_shape = tuple(s // b for s, b in zip(shape, bins))
         if seen["data"].shape != (int(np.prod(bins)),) + new_shape:
